@@ -2,11 +2,13 @@
    Proved here: the escaping core for ALL byte strings (user names, parameter and header names and values),
    whole-token method classification, the parameter lists and the SIP URI printer/parser in the default
    context; the Table 1 contexts are the same printer applied to the projection.  Hosts are accepted by a
-   predicate (Host::parse is not modelled); name-addr, the typed headers and whole messages are decided by
-   the differential runs (C01 is claimed as partial for them). *)
+   predicate (Host::parse is not modelled); name-addr and the typed headers are decided by the differential
+   runs (C01 is claimed as partial for them).  Whole messages (Model/C01m.v): what Endpoint::send_outgoing_*
+   writes for ANY start line, header multimap and body parses back, through the PullParser / Line::parse /
+   Content-Length model of C03, to the same start line, the same Headers value and the same body. *)
 From Coq Require Import List Arith NArith Bool.
 From Coq.Strings Require Import Byte.
-From EZK Require Import Gen.Tables Lib.Bytes Lib.Num Model.C01 Proofs.C01.
+From EZK Require Import Gen.Tables Lib.Bytes Lib.Num Lib.Utf8 Model.C01 Proofs.C01 Model.C03 Model.C01m Proofs.C01m.
 Import ListNotations.
 Close Scope N_scope.
 Open Scope nat_scope.
@@ -87,3 +89,63 @@ Example C01_example_uri :
   print_uri_all u = B"sips:a%2541b@example.org:5060;a%3Bb=x%3Dy%3F;lr?subject=a%20b%26c%25" /\
   parse_uri (fun s => Some 11) (print_uri_all u) = Some (u, []).
 Proof. split; vm_compute; reflexivity. Qed.
+
+(* ---------- whole messages ---------- *)
+(* header names: Name == Name is equality of a canonical key (table row, or the lower-cased spelling of an
+   unknown name); every table row is what Name::from_bytes makes of its own print string *)
+Theorem C01_header_name_equality : forall a b, name_wf a -> name_wf b -> (hname_eqb a b = true <-> key a = key b).
+Proof. exact eqb_key. Qed.
+
+Theorem C01_header_name_roundtrip : forall i, i < n_names -> hname_of (hname_print (HKnown i)) = HKnown i.
+Proof. exact known_name_wf. Qed.
+
+Theorem C01_send_replaces_content_length : sip_send_replaces_content_length = true.
+Proof. reflexivity. Qed.
+
+(* the message: for every start line without CR/LF (UTF-8, not empty), every Headers value whose names are
+   tokens and whose values contain no CR/LF, do not begin with white space and are UTF-8, and every body that
+   fits a usize, the bytes put on the wire parse back to the same start line, the Headers value that was sent
+   (the application's Content-Length replaced by the body size) and the same body *)
+Theorem C01_message_roundtrip : forall line es body,
+  line_ok line -> headers_ok es -> (N.of_nat (length body) <= usize_max)%N ->
+  parse_message (encode_message line es body) = Some (line, sent_headers es body, body).
+Proof. intros. now apply message_roundtrip. Qed.
+
+(* per header name the ordered list of values is the one the application stored; Content-Length is the body size *)
+Theorem C01_message_values : forall es body n,
+  headers_ok es -> name_wf n -> key n <> key cl_name -> h_values n (sent_headers es body) = h_values n es.
+Proof. intros. now apply sent_values. Qed.
+
+Theorem C01_message_values_stored : forall n vs es,
+  headers_ok es -> In (n, vs) es -> h_values n es = vs.
+Proof.
+  intros n vs es (Hok & Hnd) Hin. apply values_in; auto using entry_ok_wf.
+  rewrite Forall_forall in Hok. exact (proj1 (Hok _ Hin)).
+Qed.
+
+Theorem C01_message_content_length : forall es body,
+  headers_ok es -> h_values cl_name (sent_headers es body) = [print_dec (N.of_nat (length body))].
+Proof. intros. now apply sent_content_length. Qed.
+
+(* non-vacuity: two Via values, a compact spelling folded into its name, an unknown name, an application
+   Content-Length that is replaced, a body with CRLFCRLF and header-like text *)
+Definition ex_headers : list entry :=
+  [(hname_of (B"v"), [B"SIP/2.0/UDP a.example.org;branch=z9hG4bK1"; B"SIP/2.0/UDP b.example.org"]);
+   (hname_of (B"From"), [B"<sip:a@example.org>;tag=1"]);
+   (hname_of (B"X-Custom"), [B"x y"; B""]);
+   (hname_of (B"l"), [B"999"])].
+Definition ex_body : bytes := B"v=0" ++ [CR; LF; CR; LF] ++ B"Content-Length: 7".
+
+Example C01_example_message :
+  line_ok (B"OPTIONS sip:b@example.org SIP/2.0") /\ headers_ok ex_headers /\
+  h_values (hname_of (B"VIA")) (sent_headers ex_headers ex_body) = [B"SIP/2.0/UDP a.example.org;branch=z9hG4bK1"; B"SIP/2.0/UDP b.example.org"] /\
+  h_values (hname_of (B"content-length")) (sent_headers ex_headers ex_body) = [B"24"] /\
+  parse_message (encode_message (B"OPTIONS sip:b@example.org SIP/2.0") ex_headers ex_body)
+  = Some (B"OPTIONS sip:b@example.org SIP/2.0", sent_headers ex_headers ex_body, ex_body).
+Proof.
+  split; [repeat split; try (vm_compute; reflexivity); discriminate|].
+  split; [|repeat split; vm_compute; reflexivity].
+  split.
+  - repeat constructor; try (vm_compute; reflexivity); try discriminate.
+  - vm_compute. repeat constructor; cbn; intuition discriminate.
+Qed.
